@@ -277,13 +277,13 @@ def oracle(ctx, hints, broken):
             n += 1
             v = check_case(h['case'])
             if v:
-                viol.append(v)
+                C.push(viol, v)
     deep = bool(broken) or ctx['tier'] == 'thorough'
     for _ in range(3000 if not deep else 30000):
         n += 1
         v = check_case(gen_case(rng))
         if v:
-            viol.append(v)
+            C.push(viol, v)
             if len(viol) > 30:
                 break
     # every listing order of a fixed 5-block graph with a downstream block, with and without a cycle
@@ -296,7 +296,7 @@ def oracle(ctx, hints, broken):
             n += 1
             v = check_case(dict(blocks=[blocks[k] for k in perm], ins=[20], outs=[3]))
             if v:
-                viol.append(v)
+                C.push(viol, v)
                 break
     b, k = cef_checks(rng)
     viol += b
